@@ -210,7 +210,8 @@ BOUNDS = {
              'one (any iterator for the stateful core views, the second one otherwise)}; L=4 over 2 data rows for streaming views, L=6 (+1 symbolic cell) for views that keep state between '
              'iterators (sorts with memory/file cache, sort-backed operators, hash joins, cache(n), fromdicts(generator), '
              'random tables); a fresh pass afterwards',
-    'thorough': 'L=6 for every view; stateful views: 2 iterators L=8 and 3 iterators L=7 over 3 data rows',
+    'thorough': 'L=6 for every view; stateful core views: 2 iterators L=7 over 3 data rows, 3 iterators L=5 over 2 rows, L=6 with a '
+                'symbolic key cell; sort / cache views: L=7 with any iterator re-creatable',
 }
 OUTSIDE = 'tee* views (statement); more than 3 live iterators; schedules longer than L; the real Mersenne Twister (RngStub); real wall clock'
 STUBS = ['PickleStub', 'private temp dir as tempfile.tempdir', 'RngStub (random tables)', 'ClockStub (progress/clock)']
@@ -245,9 +246,9 @@ def jobs(tier):
         if q:
             return [(2, 6, 2, 0)] if core else [(2, 4, 2, 0)]
         if core:
-            return [(3, 8, 2, 0), (3, 6, 3, 0), (2, 6, 2, 1)]
+            return [(3, 7, 2, 0), (2, 5, 3, 0), (2, 6, 2, 1)]
         if st:
-            return [(3, 7, 2, 0), (2, 5, 2, 1)]
+            return [(3, 6, 2, 0), (2, 5, 2, 1)]
         return [(2, 6, 2, 0)]
 
     for (name, make, opts) in ALL:
